@@ -1,0 +1,25 @@
+//go:build verif
+
+package tcplistener
+
+// MultiLineReaderForVerif exposes the unexported multiLineReader to verification harnesses, so that it can be driven
+// with small buffers and a scripted reader.
+type MultiLineReaderForVerif struct {
+	reader *multiLineReader
+}
+
+// NewMultiLineReaderForVerif creates a multiLineReader with the same arguments as newMultiLineReader
+func NewMultiLineReaderForVerif(read func(p []byte) (int, error), test func(s []byte) bool, minBufferSize, softRecordLimit int,
+	consume func(s []byte),
+) *MultiLineReaderForVerif {
+	return &MultiLineReaderForVerif{newMultiLineReader(read, test, minBufferSize, softRecordLimit, consume)}
+}
+
+// Read calls multiLineReader.Read
+func (m *MultiLineReaderForVerif) Read() error { return m.reader.Read() }
+
+// Flush calls multiLineReader.Flush
+func (m *MultiLineReaderForVerif) Flush() { m.reader.Flush() }
+
+// FlushAll calls multiLineReader.FlushAll
+func (m *MultiLineReaderForVerif) FlushAll() { m.reader.FlushAll() }
